@@ -20,4 +20,4 @@ one() {
 }
 export -f one
 SEEDS=("$@"); if [ ${#SEEDS[@]} -eq 0 ]; then SEEDS=(/verif/selftest/refactors/R*/); fi
-printf '%s\n' "${SEEDS[@]}" | xargs -P 8 -I{} bash -c 'one {}' | sort
+printf '%s\n' "${SEEDS[@]}" | xargs -P ${PAR:-8} -I{} bash -c 'one {}' | sort
